@@ -2541,6 +2541,99 @@ def devirtualise_choice(b, log):
 # ------------------------------------------------------------------ named constants
 
 
+def explicit_known_variants(b, log):
+    """`if a.is_some() { a } else { b }`: on the branch taken when `a.is_some()` holds, the value handed on is `Some(a's payload)` - said so, for the
+    tests of the result that follow (the same fact `a.or(b)` states directly)"""
+    n = 0
+    preds = {}
+    for i, blk in enumerate(b["blocks"]):
+        if blk.get("cleanup") or blk["term"] is None:
+            continue
+        for t in succs(blk):
+            preds.setdefault(t, []).append(i)
+    for bi, blk in enumerate(b["blocks"]):
+        t = blk["term"]
+        if t is None or t["k"] != "call" or blk.get("cleanup") or t.get("t") is None:
+            continue
+        fn = callee_of(t)
+        if fn is None or fn["path"] not in ("std::option::Option::<T>::is_some", "std::option::Option::<T>::is_none") or len(t["args"]) != 1 or t["dest"]["pr"]:
+            continue
+        a = t["args"][0]
+        if a["k"] not in ("move", "copy") or a["p"]["pr"]:
+            continue
+        d = single_def(b, a["p"]["l"])
+        if not (d and d[0] == "rv" and d[3]["k"] == "ref" and not d[3]["p"]["pr"] and not d[3].get("mut")):
+            continue
+        x = d[3]["p"]["l"]
+        nb = b["blocks"][t["t"]]
+        sw = nb["term"]
+        if nb["stmts"] or sw is None or sw["k"] != "switch" or sw["d"]["k"] not in ("move", "copy") or sw["d"]["p"]["l"] != t["dest"]["l"] or sw.get("dty") != "bool":
+            continue
+        yes = sw["else"] if fn["path"].endswith("is_some") else [x_ for (v_, x_) in sw["ts"] if v_ == 0][0] if [x_ for (v_, x_) in sw["ts"] if v_ == 0] else None
+        if yes is None or preds.get(yes, []) != [t["t"]]:
+            continue
+        oty = b["locals"][x]["ty"]
+        if not oty.startswith("std::option::Option<"):
+            continue
+        inner = oty[len("std::option::Option<"):-1]
+        for st in b["blocks"][yes]["stmts"]:
+            if st["k"] != "assign":
+                break
+            acc = set()
+            locals_in(st, acc)
+            if x not in acc:
+                continue
+            rv = st["rv"]
+            if rv["k"] == "use" and rv["o"]["k"] == "move" and rv["o"]["p"]["l"] == x and not rv["o"]["p"]["pr"] and not st["p"]["pr"] \
+                    and single_def(b, st["p"]["l"]) is None:  # (a value that another branch defines too: `x.unwrap()` right after the test stays as written)
+                st["rv"] = adt_agg("std::option::Option", "Some", 1, [{"k": "move", "p": P(x, [{"dc": "Some"}, {"f": 0, "n": "0"}], inner)}])
+                n += 1
+            break  # (only the first thing done with it on that branch)
+    if n:
+        log.append("%s: %d value(s) handed on under `is_some()` written as Some(payload)" % (b["path"], n))
+
+
+def call_computed_consts(data, ref_fns, log):
+    """`const V0_8_4: Version = Version::new(0, 8, 4);` - a constant the reference tree does not have whose value is computed by calling functions of the
+    crate: a use of it is a call of its (parameterless) initialiser, which the splicing of new helpers then writes out"""
+    items = {}
+    for b in data["bodies"]:
+        if str(b.get("kind", "")).startswith(("Const", "AssocConst")) and b.get("arg_count") == 0 and b["path"] not in ref_fns:
+            live = [blk for blk in b["blocks"] if not blk.get("cleanup")]
+            calls = [blk["term"] for blk in live if blk["term"] is not None and blk["term"]["k"] == "call"]
+            if calls and len(live) <= 6 and all((callee_of(t) or {}).get("local") or (callee_of(t) or {}).get("resolved_local") for t in calls) \
+                    and all(blk["term"] is not None and blk["term"]["k"] in ("call", "return", "goto") for blk in live):
+                items[b["path"]] = b
+    if not items:
+        return
+    n = 0
+    for b in data["bodies"]:
+        if b["path"] in items:
+            continue
+        bi = 0
+        while bi < len(b["blocks"]):
+            blk = b["blocks"][bi]
+            if blk.get("cleanup"):
+                bi += 1
+                continue
+            for si, st in enumerate(blk["stmts"]):
+                if st["k"] == "assign" and st["rv"]["k"] == "use" and st["rv"]["o"]["k"] == "const" and st["rv"]["o"].get("disp") in items \
+                        and "str" not in st["rv"]["o"] and "int" not in st["rv"]["o"] and "fn" not in st["rv"]["o"]:
+                    path = st["rv"]["o"]["disp"]
+                    loc = st.get("loc") or blk["tloc"]
+                    rest = new_block(b, blk["stmts"][si + 1:], blk["term"], blk["tloc"])
+                    blk["stmts"] = blk["stmts"][:si]
+                    blk["term"] = call(fn_operand(path, [], krate=data.get("crate"), local=True, resolved_local=True, resolved_krate=data.get("crate"), kind="Fn"),
+                                       [], copy.deepcopy(st["p"]), rest, loc)
+                    n += 1
+                    break
+            bi += 1
+    for g in items.values():
+        g["kind"] = "Fn"  # (called like a function from here on)
+    if n:
+        log.append("%d use(s) of constants computed by calling crate functions written as a call of their initialiser" % n)
+
+
 def resolve_named_consts(data, log):
     """`const NAME: &str = "lit";` — uses of NAME are replaced by the literal (MIR refers to the item by path)"""
     lits = {}
@@ -3926,6 +4019,8 @@ def preprocess(data, known=None, known_uses=None):
     bodies = {b["path"]: b for b in data["bodies"]}
     try:
         resolve_named_consts(data, log)
+        if known is not None:
+            call_computed_consts(data, known, log)
     except Exception as e:
         log.append("named constants: %s" % e)
     spliced_closures = set()
@@ -3944,6 +4039,7 @@ def preprocess(data, known=None, known_uses=None):
         # drop is a plain jump, so that the paths through a function are not chopped up by them
         drops_to_gotos(b)
         guarded("idiom rewriting", rewrite_idioms, b, log)
+        guarded("known variants", explicit_known_variants, b, log)
         guarded("`?` desugaring", desugar_try, b, log)
         guarded("jump threading", thread_bool_jumps, b, log)
         if b["path"] not in KNOWN_ORPAT:
